@@ -19,7 +19,7 @@ CONTAINERS = ('list', 'dict', 'set', 'deque')
 
 
 @rule('SA-ALIAS.restore')
-@props('C14')
+@props('C14', 'C07', 'C11')
 def alias_restore(ctx):
     obs = []
     nassign = 0
